@@ -2,6 +2,7 @@ package main
 
 import (
 	"go/ast"
+	"go/types"
 	"strings"
 )
 
@@ -71,11 +72,37 @@ func rulesC12(c *Ctx) {
 			c.Check("C12.a", "new ask registered only without a node", call, p.Holds(st, p.NilAtom(true, func(t Term) bool { return p.TypeName(p.TypeOf(t.E)) == "objects.Node" })), "AddAllocationAsk reached without the fact node == nil")
 		}
 		// resize: the application (queue, user) is updated whether or not the allocation is bound; the node only when bound
+		holding := map[types.Object]bool{}
+		ast.Inspect(fn.Decl.Body, func(m ast.Node) bool {
+			as, ok := m.(*ast.AssignStmt)
+			if !ok || len(as.Lhs) != 1 || len(as.Rhs) != 1 {
+				return true
+			}
+			gc, isC := unparen(as.Rhs[0]).(*ast.CallExpr)
+			if !isC || !p.IsCall(gc, "scheduler.PartitionContext.GetNode") || len(gc.Args) != 1 {
+				return true
+			}
+			if nc, isN := unparen(gc.Args[0]).(*ast.CallExpr); isN && p.IsCall(nc, "objects.Allocation.GetNodeID") && Recv(nc) != nil && !p.isParam(fn, Recv(nc), 0) {
+				if id, isID := as.Lhs[0].(*ast.Ident); isID {
+					holding[p.ObjOf(id)] = true
+				}
+			}
+			return true
+		})
 		for _, call := range p.callsIn(fn, "objects.Application.UpdateAllocationResources") {
 			st := p.StateAt(fn, call)
 			bad := ""
 			for _, a := range p.AllAtoms(st) {
-				if strings.Contains(p.Src(a.E), "existingNode") {
+				// a condition on the node that holds the allocation (any *Node valued operand)
+				onNode := false
+				ast.Inspect(a.E, func(m ast.Node) bool {
+					// the node that holds the existing allocation: a local assigned pc.GetNode(<registered allocation>.GetNodeID())
+					if id, isID := m.(*ast.Ident); isID && holding[p.ObjOf(id)] {
+						onNode = true
+					}
+					return true
+				})
+				if onNode {
 					bad = p.Src(a.E)
 				}
 			}
